@@ -17,7 +17,9 @@ INFO = {
 
 LOOKX = common.LOOK + ("Iterator>::next", "IntoIterator>::into_iter", "]>::iter", "::iter", "Rc::<T>::new",
                        "ToOwned>::to_owned", "Iterator>::map", "Iterator>::cloned", "Iterator>::copied", "Iterator>::chain",
-                       "Iterator>::rev", "HashMap::<K, V, S>::iter", "Vec::<T, A>::iter")
+                       "Iterator>::rev", "HashMap::<K, V, S>::iter", "Vec::<T, A>::iter",
+                       "iter::Iterator::map", "iter::Iterator::cloned", "iter::Iterator::copied",
+                       "iter::Iterator::chain", "iter::Iterator::rev", "iter::IntoIterator::into_iter")
 MUTATORS_ADD = ("push", "insert", "extend", "push_back", "push_front", "insert_mut", "append")
 MUTATORS_DEL = ("remove", "clear", "retain", "truncate", "pop", "drain", "swap_remove", "shift_remove", "take",
                 "split_off", "dedup")
@@ -213,6 +215,20 @@ def _container_local(b, pr, operand, bb, idx):
 def _extend(r, r2, key, want, b, pr, operand, bb, idx, fi, fi_input, fields, lib):
     where = b.where(bb)
     cl = _container_local(b, pr, operand, bb, idx)
+    if cl is None and want == "parents":
+        # `once(self.input.clone()).chain(self.parent_inputs.iter().cloned()).collect()`
+        parts = _collected_parts(b, pr, operand, lib, fi_input)
+        if parts is not None:
+            def has(at, f):
+                return any(a[0] == "arg" and a[1] == 1 and a[2] and a[2][0] == "f%d" % f for a in at)
+            if len(parts) == 2 and parts[0][0] == "one" and has(parts[0][1], fi_input) and not has(parts[0][1], fi) \
+                    and parts[1][0] == "all" and has(parts[1][1], fi) and not has(parts[1][1], fi_input):
+                r.ok(key, "[self.input] ++ self.parent_inputs (collected from once(..).chain(..))", where)
+                r2.ok(key, "input first, then every old parent", where)
+            else:
+                r.bad(key, "the new parent chain is not once(self.input) followed by all of self.parent_inputs: %s"
+                      % [(k, sorted(map(str, at))[:3]) for k, at in parts], where)
+            return
     if cl is None:
         r.bad(key, "cannot find the collection that is extended (unrecognised idiom)", where)
         return
@@ -242,7 +258,12 @@ def _extend(r, r2, key, want, b, pr, operand, bb, idx, fi, fi_input, fields, lib
     def arg_atoms(c):
         out = set()
         for i in range(1, len(c.args)):
-            out |= _field_atoms(expand(pr.call_arg_origins(c, i)), lib, b, pr, fi_input)
+            at = expand(pr.call_arg_origins(c, i))
+            if not _maps_keep_elements(b, pr, at, lib):
+                # an iterator whose elements are rewritten by a closure that does more than clone its argument:
+                # what is added is not (known to be) the old content
+                at = {a for a in at if a[0] != "arg"} | {("call", -1, ())}
+            out |= _field_atoms(at, lib, b, pr, fi_input)
         return out
     base = _field_atoms(pr.place_origins(cl, ()), lib, b, pr, fi_input)
     base_self = any(a[0] == "arg" and a[1] == 1 and a[2] and a[2][0] == "f%d" % fi for a in base)
@@ -287,10 +308,106 @@ def _extend(r, r2, key, want, b, pr, operand, bb, idx, fi, fi_input, fields, lib
                    "skip a level", first[0].where(), witness=P.witness(b, 0, esc[0], [c.bb for c in first]))
         elif not all(b.dominates(first[0].bb, c.bb) for c in rest):
             r2.bad(key + "#order", "the previous input is not the first element of the parent chain", first[0].where())
-        elif any(not b.in_loop(c.bb) for c in rest) or any(_guarded_in_loop(b, c) for c in rest):
+        elif any(not b.in_loop(c.bb) and not (c.name or "").endswith("::extend") for c in rest) or \
+                any(_guarded_in_loop(b, c) for c in rest if not (c.name or "").endswith("::extend")) or \
+                any((c.name or "").endswith("::extend") and not b.dominates(c.bb, bb) for c in rest):
             r2.bad(key + "#all-parents", "not every old parent is carried over", rest[0].where())
         else:
             r2.ok(key, "input first, then every old parent", first[0].where())
+
+
+TRANSPARENT_ITER = ("Iterator::cloned", "Iterator>::cloned", "Iterator::copied", "Iterator>::copied",
+                    "IntoIterator::into_iter", "IntoIterator>::into_iter", "::iter", "Iterator::by_ref")
+
+
+def _collected_parts(b, pr, operand, lib, fi_input, depth=0):
+    """[("one" | "all", atoms)] for a collection built by `<iterator expression>.collect()` (possibly wrapped by
+    Rc::new / moves): once(x) is one element, chain(a, b) is a followed by b, iter()/cloned()/copied() yield all
+    elements of what they are applied to, in order. None when the expression has another shape."""
+    def single_def_call(op):
+        place = op.get("place") if op else None
+        if not place or place["p"]:
+            return None
+        l = place["l"]
+        seen = set()
+        while l not in seen:
+            seen.add(l)
+            sites = pr._def_sites(l)
+            if len(sites) != 1:
+                return None
+            sbb, spos, kind, payload = sites[0]
+            if kind == "assign":
+                dproj, rv = payload
+                if rv["k"] == "use" and rv["op"].get("k") in ("move", "copy") and not rv["op"]["place"]["p"]:
+                    l = rv["op"]["place"]["l"]
+                    continue
+                return None
+            return b.call_at[sbb]
+        return None
+
+    def parts(op, d=0):
+        if d > 8:
+            return None
+        c = single_def_call(op)
+        if c is None:
+            at = _field_atoms(pr.origins(op), lib, b, pr, fi_input)
+            return [("all", at)]
+        n = c.name or ""
+        cal = c.callee or ""
+        if cal.endswith("Iterator::chain") and len(c.args) == 2:
+            x, y = parts(c.args[0], d + 1), parts(c.args[1], d + 1)
+            return None if x is None or y is None else x + y
+        if n.endswith("iter::once") or n.endswith("iter::sources::once::once"):
+            at = set()
+            for a in pr.call_arg_origins(c, 0):
+                at.add(a)
+            return [("one", _field_atoms(at, lib, b, pr, fi_input))]
+        if any(n.endswith(t) or cal.endswith(t) for t in TRANSPARENT_ITER) or \
+                cal in ("std::ops::Deref::deref",) or n.endswith("Rc::<T>::new"):
+            return parts(c.args[0], d + 1)
+        return None
+    c = single_def_call(operand)
+    while c is not None and ((c.name or "").endswith("Rc::<T>::new")):
+        c = single_def_call(c.args[0])
+    if c is None or not (c.callee or "").endswith("Iterator::collect"):
+        return None
+    return parts(c.args[0])
+
+
+def _maps_keep_elements(b, pr, atoms, lib):
+    """Every `Iterator::map` the value was traced through has a closure whose result derives from its own parameter
+    only (clones / tuples of it): the mapped iterator yields the same elements."""
+    for a in atoms:
+        if a[0] != "via" or not str(a[1]).endswith("Iterator::map") and not str(a[1]).endswith("Iterator>::map"):
+            continue
+        c = b.call_at.get(a[2])
+        if c is None or len(c.args) < 2:
+            return False
+        clos = [x for x in pr.call_arg_origins(c, 1) if x[0] == "agg"]
+        if len(clos) != 1:
+            return False
+        rv = b.stmts(clos[0][1])[clos[0][2]]["rv"]
+        if rv.get("agg") != "closure" or rv.get("ops"):
+            return False           # a capturing closure can bring other values in
+        cb = lib.bodies.get(rv.get("closure")) or getattr(lib, "raw_bodies", {}).get(rv.get("closure"))
+        if cb is None:
+            return False
+        cpr = Prov(cb, LOOKX)
+
+        def flat(at, depth=0):
+            out = set()
+            for x in at:
+                if x[0] == "agg" and depth < 4:
+                    rv2 = cb.stmts(x[1])[x[2]]["rv"]
+                    for o in rv2["ops"]:
+                        out |= flat(cpr._rv_origins_at({"k": "use", "op": o}, (), x[1], x[2], set()), depth + 1)
+                else:
+                    out.add(x)
+            return out
+        res = flat(cpr.place_origins(0, ()))
+        if not res or any(not (x[0] in ("via", "op") or (x[0] == "arg" and x[1] >= 2)) for x in res):
+            return False
+    return True
 
 
 def _guarded_in_loop(b, c):
